@@ -72,6 +72,25 @@ def run(F, rep):
                 det = '%sFunctionString() is emitted under %s' % (lc(X), sorted(cc for cc, t in rc if 'need' in cc or 'Operator' in cc))
         rep.check(good, 'C17.N3', X, emits[0][0].where(emits[0][1]), det, 'emitted under need%sFunction()' % X + (' && !has%sOperator()' % X if X in OPERATOR_BACKED else ''))
 
+    # E1: "=" versus "==": only an <eq> directly under <math> is the equality of an equation
+    rep.rule('C17.E1', 'in analyseNode an <eq/> keeps the type EQUALITY (the "=" of an equation) exactly when its application sits directly under <math>: the test that separates it from the comparison "==" names the element `math` '
+                       'and nothing else - a positive list of the places where a comparison may appear (apply, piece) misses the others (otherwise, degree, logbase, bvar), and the generated code then contains an assignment inside an expression')
+    an17 = F.fn1('Analyser::AnalyserImpl::analyseNode')
+    eqpop = [c for c in an17.walk() if c.get('k') == 'Call' and c.get('fn') == 'populate' and any(x.get('k') == 'Ref' and x.get('dk') == 'enumc' and x.get('n') == 'EQ' for x in walk(c))]
+    if len(eqpop) != 1:
+        raise AnalysisBroken('analyseNode: populate(EQ) not found (%d)' % len(eqpop))
+    names17 = set()
+    pos17 = []
+    for cnd, br, st in enclosing_conditions(an17, eqpop[0]):
+        t_ = render(cnd)
+        if 'isMathmlElement("eq")' in t_:
+            break
+        for m_ in re.finditer(r'isMathmlElement\("(\w+)"\)', t_):
+            names17.add(m_.group(1))
+        pos17.append((t_[:70], br))
+    rep.check(names17 == {'math'}, 'C17.E1', 'analyseNode|eq versus equality', an17.where(eqpop[0]), 'whether <eq/> is a comparison is decided by %s (elements named: %s): comparisons in the places that are not listed keep the type EQUALITY' % (pos17, sorted(names17)),
+              'decided by "the grandparent is (not) <math>" alone')
+
     # N4: an early return in an emitting function may only be taken when none of the helpers emitted after it is needed
     rep.rule('C17.N4', 'a function of the generator that emits helper definitions returns early only under a condition that implies that NONE of the helpers it would emit further down is needed '
                        '(decided by evaluating the condition, named sub-conditions spelled out, for every assignment of the need<X>Function() flags): a "nothing to do" shortcut that forgets one flag drops that helper for the models that need only it')
